@@ -182,6 +182,36 @@ pub fn alpha_sweep(
     })
 }
 
+/// Undeviated encodings produced chunk by chunk (cross products too large to hold in memory):
+/// each through every target as it stands, with one trailing byte and with the last byte cut off.
+/// `wrap` puts the encoding into its enclosing structure (a record, ...).
+pub fn grid_sweep(
+    run: &Run,
+    targets: &[&Target],
+    nchunks: usize,
+    gen: &(dyn Fn(usize, usize) -> Vec<vcommon::en::W> + Sync),
+    wrap: &(dyn Fn(&vcommon::en::W) -> vcommon::en::W + Sync),
+    extra: &(dyn Fn(&Target, &[u8], &Got, &Ref, &mut Sink) + Sync),
+) -> Sink {
+    par_run(run.threads, nchunks, |i, sink| {
+        for w in gen(i, nchunks) {
+            let w = wrap(&w);
+            let mut b = w.buf.clone();
+            b.push(0x16);
+            for t in targets {
+                for s in [&b[..b.len() - 1], &b[..], &b[..b.len() - 2]] {
+                    let (g, r) = check_case(run.prop, t, s, sink);
+                    extra(t, s, &g, &r, sink);
+                }
+                sink.bump("grid encodings", 1);
+            }
+        }
+    })
+}
+pub fn no_wrap(w: &vcommon::en::W) -> vcommon::en::W {
+    w.clone()
+}
+
 pub fn no_extra(_: &Target, _: &[u8], _: &Got, _: &Ref, _: &mut Sink) {}
 pub fn identity_wrap(p: &[u8], out: &mut Vec<u8>) {
     out.extend_from_slice(p);
